@@ -10,7 +10,7 @@ def fmt(box):
     return ' '.join(f'{lo:02X}' if lo == hi else f'{lo:02X}-{hi:02X}' for lo, hi in box)
 
 
-def run(ck, tu, site='src/utf8_decode.c:utf8_decode_next', ids=('O3.1a', 'O3.1b', 'O3.1c'), fld='u->'):
+def run(ck, tu, site='src/utf8_decode.c:utf8_decode_next', ids=('O3.1a', 'O3.1b', 'O3.1c'), fld='u->', end_keeps_byte=False):
     unit = site.split(':')[0]
     ck.analysed(functions=[site, f'{unit}:get', f'{unit}:cont', f'{unit}:utf8_decode_init', f'{unit}:utf8_decode_at_byte'])
     cells, nrun = D.analyse(tu)
@@ -40,7 +40,9 @@ def run(ck, tu, site='src/utf8_decode.c:utf8_decode_next', ids=('O3.1a', 'O3.1b'
                 d3.instance(f'{site}:value', ok=okv, wclass='wrong-value', what=f'for bytes {fmt(b[:n])} the decoder returns [{lo},{hi}], code points are [{tl},{th}]')
             d3.instance(f'{site}:the_byte', ok=byte_ok, wclass='the_byte', what=f'the_byte is not set to the index of the character\'s first byte (return at {where(node)})')
         else:
-            if avail == 0: end_vals.add(lo)
+            if avail == 0:
+                end_vals.add(lo)
+                if end_keeps_byte: d3.instance(f'{site}:the_byte@END', ok=byte_ok, wclass='the_byte', what=f'an END return changes the_byte (return at {where(node)}): utf8_decode_at_byte after END no longer names the last character')
             else:
                 err_vals.add((lo, hi))
                 d3.instance(f'{site}:the_byte', ok=byte_ok, wclass='the_byte', what=f'the_byte is not set to the index of the character\'s first byte on an error return ({where(node)})') if not byte_ok else None
